@@ -1,0 +1,65 @@
+//go:build verif
+
+package nebula
+
+import (
+	"log/slog"
+	"net/netip"
+
+	"github.com/gaissmai/bart"
+)
+
+// Thin exported wrappers for the verification harness (engine `calcremote`). No behaviour.
+
+type VerifCalcRemote = calculatedRemote
+
+func VerifNewCalculatedRemote(cidr, maskCidr netip.Prefix, port int) (*VerifCalcRemote, error) {
+	return newCalculatedRemote(cidr, maskCidr, port)
+}
+
+func VerifCalcRemoteFields(c *VerifCalcRemote) (netip.Prefix, netip.Prefix, uint32) {
+	return c.ipNet, c.mask, c.port
+}
+
+type VerifCalcRemoteEntry struct {
+	Cidr    netip.Prefix
+	Remotes []*VerifCalcRemote
+}
+
+// VerifCalcRemoteLightHouse builds a LightHouse that has only what addCalculatedRemotes touches.
+func VerifCalcRemoteLightHouse(myNet netip.Prefix, entries []VerifCalcRemoteEntry) *LightHouse {
+	lh := &LightHouse{
+		myVpnNetworks:      []netip.Prefix{myNet},
+		myVpnNetworksTable: new(bart.Lite),
+		addrMap:            map[netip.Addr]*RemoteList{},
+		l:                  slog.New(slog.DiscardHandler),
+	}
+	lh.myVpnNetworksTable.Insert(myNet)
+	lh.remoteAllowList.Store(&RemoteAllowList{})
+	if entries != nil {
+		t := new(bart.Table[[]*calculatedRemote])
+		for _, e := range entries {
+			t.Insert(e.Cidr, e.Remotes)
+		}
+		lh.calculatedRemotes.Store(t)
+	}
+	return lh
+}
+
+// VerifAddCalculatedRemotes calls addCalculatedRemotes and reads back what it stored for vpnAddr.
+func VerifAddCalculatedRemotes(lh *LightHouse, vpnAddr netip.Addr) (bool, []*V4AddrPort, []*V6AddrPort) {
+	added := lh.addCalculatedRemotes(vpnAddr)
+	var v4 []*V4AddrPort
+	var v6 []*V6AddrPort
+	if rl, ok := lh.addrMap[vpnAddr]; ok {
+		if c, ok := rl.cache[lh.myVpnNetworks[0].Addr()]; ok {
+			if c.v4 != nil {
+				v4 = c.v4.reported
+			}
+			if c.v6 != nil {
+				v6 = c.v6.reported
+			}
+		}
+	}
+	return added, v4, v6
+}
